@@ -206,6 +206,11 @@ func c11Judge(k *core.Case, fi int, t abs.Transform, lt *message.Transform, path
 	}
 	if got.ok {
 		k.Count("supported_"+fn.name, 1)
+		if k.WantSample() {
+			k.Sample(M{"function": fn.name, "transform": t, "path": path, "decoded": fmt.Sprintf("%+v", got)})
+		}
+	} else if k.WantSample() && k.Index%4099 == 7 {
+		k.Sample(M{"function": fn.name, "transform": t, "path": path, "decoded": "unsupported"})
 	}
 }
 
